@@ -23,6 +23,9 @@ from harness.props import c07 as c07mod
 
 VOLATILE_DEVICE = c07mod.VOLATILE_DEVICE
 STATIC = c07mod.STATIC
+VPORT_LIMIT = 6           # settings.core.virtual_ports of the hub under test: low, so that restores run near the limit
+SLAVE_PREFIX_IDS = ['v1', 'slv1_light', 'slv12.fan', 'slv1x']     # ids having a slave's name as a proper prefix
+OTHER_IDS = ['w1', 'w2', 'w3']
 
 
 class C20(Prop):
@@ -62,6 +65,7 @@ class C20(Prop):
         settings.ports = [dict(driver='harness.ports_c07.LoggingPort', **sp) for sp in STATIC]
         settings.slaves.enabled = True
         settings.frontend.enabled = False
+        settings.core.virtual_ports = VPORT_LIMIT
         for f in ('init_loop', 'init_system', 'init_persist', 'init_peripherals', 'init_events', 'init_sessions',
                   'init_history', 'init_device', 'init_webhooks', 'init_reverse', 'init_ports', 'init_slaves', 'init_main'):
             await getattr(startup, f)()
@@ -84,17 +88,38 @@ class C20(Prop):
             {'canon': [['e', 'ADD($v2, 1)', 'ADD($v2, 1)']], 'xf': [], 'corrupt': ['expr', 0],
              'A': [['add', {'id': 'v2', 'type': 'number'}], ['add', {'id': 'a1', 'type': 'number'}],
                    ['patch', 'a1', {'expression': 'ADD($v2, 1)'}], ['val', 'v2', 4]], 'B': [['del', 'a1'], ['del', 'v2']]},
+            # local virtual ports whose ids begin with the name of a slave device
+            {'canon': [], 'xf': [], 'corrupt': ['none', 0],
+             'A': [['sput', [g._slave_doc('garage', 1, {'name': 'garage', 'flags': 'f'})]],
+                   ['add', {'id': 'garage_light', 'type': 'boolean'}], ['add', {'id': 'garage2.fan', 'type': 'number'}],
+                   ['add', {'id': 'kitchen', 'type': 'number'}], ['patch', 'garage_light', {'tag': 'g'}]],
+             'B': [['del', 'garage_light'], ['sput', []]]},
+            # source and target together exceed the virtual port limit, each alone does not; restore twice
+            {'canon': [], 'xf': [], 'corrupt': ['none', 0],
+             'A': [['add', {'id': f'v{i}', 'type': 'number'}] for i in (1, 2, 3)],
+             'B': [['add', {'id': f'w{i}', 'type': 'boolean'}] for i in (1, 2, 3)]},
         ]
 
     def gen(self, rng, tier):
         g = c07mod.C07()
-        full = g.gen(rng, tier)
+        vids = SLAVE_PREFIX_IDS if rng.random() < 0.4 else None
+        full = g.gen(rng, tier, vids=vids)
         while len(full['phases']) < 2:
-            full = g.gen(rng, tier)
+            full = g.gen(rng, tier, vids=vids)
         A = [op for op in full['phases'][0]]
         B = [op for op in full['phases'][1]] + ([op for op in full['phases'][2]] if len(full['phases']) > 2 else [])
+        if vids or rng.random() < 0.3:
+            # slave devices on the source (restored before the ports, the usual order)
+            docs = [g._slave_doc('slv1', 1, {'name': 'slv1', 'flags': 'f'})]
+            if rng.random() < 0.4:
+                docs.append(g._slave_doc('slv2', 2, {'name': 'slv2', 'flags': 'f'}))
+            A.insert(len(A) if vids else rng.randrange(len(A) + 1), ['sput', docs])
         if rng.random() < 0.5:
-            B.insert(0, ['del', rng.choice(c07mod.VIDS)])
+            B.insert(0, ['del', rng.choice(vids or c07mod.VIDS)])
+        if rng.random() < 0.6:
+            # the target holds other virtual ports: target + source together run into the limit
+            for pid in rng.sample(OTHER_IDS, rng.choice([1, 2, 3])):
+                B.insert(rng.randrange(len(B) + 1), ['add', {'id': pid, 'type': rng.choice(['number', 'boolean'])}])
         return {'canon': full['canon'], 'xf': full['xf'], 'A': A, 'B': B,
                 'corrupt': [rng.choice(['type', 'expr', 'def', 'none']), rng.randrange(6)]}
 
@@ -170,8 +195,17 @@ class C20(Prop):
         await self.b._settle(4)
         out['b'] = await self.b._dump()
         out['b_hashes'] = self.b._hashes()
+        for d in (out['a'], out['b']):
+            for s in d.get('devices', []):
+                s.pop('webhooks', None)          # added by the harness dump, not part of GET /devices
         out['put'] = await self._put_all(out['a'])
         out['c'] = await self.b._dump()
+        # a second restore of the same backup on the (now equal) hub must be accepted and change nothing
+        out['put2'] = await self._put_all(out['a'])
+        out['c2'] = await self.b._dump()
+        for d in (out['c'], out['c2']):
+            for s in d.get('devices', []):
+                s.pop('webhooks', None)
         out['c_hashes'] = self.b._hashes()
         # ---- corrupted document
         kind, k = case['corrupt']
@@ -241,9 +275,17 @@ class C20(Prop):
         for d in (src, after):
             for k in ('admin_password', 'normal_password', 'viewonly_password'):
                 d['device'].pop(k, None)
+        after2 = self._canon(out['c2'], None, xf_ok)
+        for k in ('admin_password', 'normal_password', 'viewonly_password'):
+            after2['device'].pop(k, None)
+        if fail is None and out['put2'] != ['ok', 'ok', 'ok']:
+            fail = Failure('property', f'a second restore of the same backup was refused: {out["put2"]}', real=out['put2'])
         if fail is None and src != after:
             fail = Failure('property', 'GET after restore differs from the backup: ' + c07mod.C07._first_diff(src, after),
                            real={'backup': src, 'after': after})
+        if fail is None and src != after2:
+            fail = Failure('property', 'GET after the second restore differs from the backup: '
+                           + c07mod.C07._first_diff(src, after2), real={'backup': src, 'after': after2})
         if fail is None and out['c_hashes'] != out['b_hashes']:
             fail = Failure('property', 'restore changed the password hashes of the target', real=[out['b_hashes'], out['c_hashes']])
         # ---- rejected document
